@@ -20,9 +20,9 @@ From Onet Require Export Base.Corr Net.RouterClose Net.CloseSeq.
 
 (* which variant of the code the correspondence compares with; the integrator flips a
    flag when the corresponding fix commit lands in /repo *)
-Definition code_fixed_F11 := false.   (* set-up failure closes the connection (router.go) *)
-Definition code_fixed_F41 := false.   (* treeStorage.Close releases the lock before wg.Wait *)
-Definition code_fixed_F42 := false.   (* a closed overlay refuses new instances *)
+Definition code_fixed_F11 := true.   (* set-up failure closes the connection (router.go) *)
+Definition code_fixed_F41 := true.   (* treeStorage.Close releases the lock before wg.Wait *)
+Definition code_fixed_F42 := true.   (* a closed overlay refuses new instances *)
 
 (* ---- router scripts --------------------------------------------------------- *)
 
@@ -171,6 +171,7 @@ Record robs := mkRobs {
   o_open : list bool;             (* per connection in creation order: this router's endpoint still open *)
   o_disp : list (nat * nat);      (* (connection, message) in dispatch order *)
   o_late : nat;                   (* dispatches that started after a Stop call had returned *)
+  o_inprogress : nat;             (* dispatches in progress at the instant a Stop call returned *)
   o_panic : bool;
   (* implementation-only facts *)
   o_goroutines : nat;             (* goroutines of this router still alive at the end *)
@@ -197,7 +198,9 @@ Definition agree_script (tcp : bool) (ms : list macro) (o : robs) : bool :=
   list_eqb Bool.eqb (map stop_done (stops s)) (o_stops o) &&
   list_eqb Bool.eqb (map lopen (conns s)) (o_open o) &&
   list_eqb pair_eqb (dispatched s) (o_disp o) &&
-  (late s =? o_late o) && Bool.eqb (crashed s) (o_panic o).
+  (late s =? o_late o) && Bool.eqb (crashed s) (o_panic o) &&
+  (* c10_registered_closed_at_return: no handler is alive in a state in which a Stop has returned *)
+  (o_inprogress o =? 0).
 
 Definition count_true (l : list bool) : nat := length (filter (fun b => b) l).
 
@@ -206,7 +209,7 @@ Definition count_true (l : list bool) : nat := length (filter (fun b => b) l).
    nothing is dispatched late, every call returns; with the repair no connection stays open,
    without it at most one per failed send (two connection attempts each) and refused inbound *)
 Definition agree_race (nin : nat) (o : robs) : bool :=
-  negb (o_panic o) && (o_late o =? 0) &&
+  negb (o_panic o) && (o_late o =? 0) && (o_inprogress o =? 0) &&
   forallb (fun r => negb (ores_eqb r RPending)) (o_sends o) && forallb (fun b => b) (o_stops o) &&
   (if code_fixed_F11 then count_true (o_open o) =? 0
    else count_true (o_open o) <=? 2 * length (filter (fun r => ores_eqb r RErr) (o_sends o)) + nin).
@@ -291,7 +294,8 @@ Definition mismatches (l : list case) : list nat := mism_idx agree l.
    6 a racing operation (send, inbound set-up, protocol start) neither completed nor failed: it hangs
    7 something panicked
    8 close itself did not return
-   9 a protocol instance started while closing is left registered and running *)
+   9 a protocol instance is left registered and running after close returned
+   10 a receive goroutine was still dispatching a peer message when close returned *)
 Definition check_router (o : robs) : list nat :=
   clause 1 (o_late o =? 0) ++
   clause 2 (count_true (o_open o) =? 0) ++
@@ -299,7 +303,8 @@ Definition check_router (o : robs) : list nat :=
   clause 4 (o_rebind o) ++
   clause 6 (forallb (fun r => negb (ores_eqb r RPending)) (o_sends o)) ++
   clause 7 (negb (o_panic o)) ++
-  clause 8 (forallb (fun b => b) (o_stops o)).
+  clause 8 (forallb (fun b => b) (o_stops o)) ++
+  clause 10 (o_inprogress o =? 0).
 
 Definition check_server (o : sobs) : list nat :=
   clause 1 (s_late o =? 0) ++
